@@ -55,7 +55,7 @@ META = {
     "design_ref": "DESIGN.md §6 C08",
 }
 
-FAMILIES = ("collections-", "concurrent/", "values/", "history/")
+FAMILIES = ("collections-", "concurrent/", "values/", "alias/", "history/")
 
 HDR = "From Dawn Require Import Fingerprint.Model Fingerprint.Run.\nOpen Scope N_scope.\n"
 
@@ -104,7 +104,7 @@ def run(ctx):
         return
     out = os.path.join(ctx.tmp, "c08.tsv")
     files = {n: os.path.join(HARNESS, "overlay/root", n) for n in
-             ("zz_verif_c08_test.go", "zz_verif_c08_sweep_test.go", "zz_verif_c08_values_test.go", "zz_verif_c08_conc_test.go", "zz_verif_c08_hist_test.go")}
+             ("zz_verif_c08_test.go", "zz_verif_c08_sweep_test.go", "zz_verif_c08_values_test.go", "zz_verif_c08_alias_test.go", "zz_verif_c08_conc_test.go", "zz_verif_c08_hist_test.go")}
     env = {"VERIF_OUT": out, "VERIF_SEED": str(ctx.seed), "VERIF_NRAND": "12" if ctx.quick() else "150",
            "VERIF_C08_THOROUGH": "0" if ctx.quick() else "1"}
     # the schedule families once more under the race detector, in parallel with the main run (a second build of the package)
@@ -128,6 +128,7 @@ def run(ctx):
     texts = {}
     values_info = {"routes": {}}
     hist_info = {}
+    alias_info = {"routes": {}}
     for line in open(out):
         f = line.rstrip("\n").split("\t")
         if f[0] == "ORACLE":
@@ -142,6 +143,11 @@ def run(ctx):
             values_info["routes"][f[1]] = {"targets": int(f[2]), "distinct_values": int(f[3]), "distinct_fingerprints": int(f[4])}
         elif f[0] == "valuesdone":
             values_info["pool"], values_info["edit_loads"] = int(f[1]), int(f[2])
+        elif f[0] == "aliasroute":
+            alias_info["routes"][f[1]] = {"targets": int(f[2]), "distinct_values": int(f[3]), "distinct_fingerprints": int(f[4])}
+        elif f[0] == "aliasstats":
+            alias_info.update({"bases": int(f[1]), "pair_targets": int(f[2]), "colliding_with_another_value": int(f[3]),
+                               "equal_value_equal_fingerprint_not_judged": int(f[4]), "edit_loads": int(f[5])})
         elif f[0] == "histstats":
             hist_info = {"targets": int(f[1]), "fault_sources": int(f[2]), "fingerprints_compared_with_the_fresh_process": int(f[3]), "differing": int(f[4])}
         elif f[0] == "text":
@@ -173,12 +179,14 @@ def run(ctx):
                                                       "collection_cases": len([c for c in cases if c[0].startswith("collections-")]),
                                                       "schedule_cases": len([c for c in cases if c[0].startswith("concurrent/")]),
                                                       "value_cases": len([c for c in cases if c[0].startswith("values/")]), "values": values_info,
+                                                      "related_value_cases": len([c for c in cases if c[0].startswith("alias/")]), "related_values": alias_info,
                                                       "history_cases": len([c for c in cases if c[0].startswith("history/")]), "history": hist_info}
     ctx.add_samples([c[:4] for c in cases[:3]] + [g[:3] for g in graphs[1:3]])
     # oracle failures of the two families are many lines of one defect: one violation per (family, oracle), inputs listed
     grouped, single = {}, []
     for o_ in oracles:
         fam = ("collections" if o_[1].startswith("collections-") else "concurrent" if o_[1].startswith("concurrent/") else "values" if o_[1].startswith("values/")
+               else "alias" if o_[1].startswith("alias/")
                else "history" if o_[1].startswith("history/") else None)
         if fam:
             grouped.setdefault((fam, o_[0]), []).append(o_)
@@ -194,11 +202,17 @@ def run(ctx):
                     seen_routes.add(route)
                     firsts.append(x)
             lst = firsts + [x for x in lst if x not in firsts]
+        if fam == "alias":
+            lst = [x for x in lst if x[1].startswith("alias/edits/")] + [x for x in lst if not x[1].startswith("alias/edits/")]
         how = ("harness/overlay/root/zz_verif_c08_sweep_test.go: program c08SweepText(n, ...) for the size n in the name, target and edit as named"
                if fam == "collections" else
                "harness/overlay/root/zz_verif_c08_values_test.go: pool c08ValuePool(seed, thorough); values/<route>/<a> -> <b>: the targets function=mk(<a>) and function=mk(<b>) of c08ValuePoolText (route = how the "
                "value is wrapped); values/edits/<target>/<a> -> <b>: the projects c08ValueEditText(<a>) and c08ValueEditText(<b>), target as named"
                if fam == "values" else
+               "harness/overlay/root/zz_verif_c08_alias_test.go: bases c08AliasBases(seed, thorough); alias/edits/<target>/<base>: A = ..; B = <d> <- B = <d'>: the projects c08AliasEditText(base, d') (before) and "
+               "c08AliasEditText(base, d) (after), both printed below, target as named: an edit of module-level code outside every function that changes the value of the global B the target references; "
+               "alias/<route>/<base>: A = ..; (x, y) <- (x', y'): the targets `before` and `after` of the BUILD.dawn below (c08AliasPoolText: same code, referencing (x', y') and (x, y), all computed from the one object A)"
+               if fam == "alias" else
                "harness/overlay/root/zz_verif_c08_hist_test.go: project c08HistText(seed, true) (BUILD.dawn below) loaded with c08HistBuiltins() after a build of c08HistText(seed, false); "
                "history/<what the process did before>, then //:<target>: the fingerprint of <target> (stamp, functionEnv, upToDate) computed after that history differs from the one computed alone, first "
                "thing in a fresh process (child histref); 'failed fingerprint of //:f with attribute x of FUSE_i unreadable' = functionEnv(//:f) while the predeclared value FUSE_i returns an error for that attribute; "
